@@ -475,3 +475,46 @@ fire('c16-setz-before', 'C16', M, 'Method.CalculateFunctionals', '        point 
      '        point.SetIndex(0)\n        point = self.task.Calculate(point, 0)\n', None)
 twin('c16-accuracy-before', 'C16', M, 'Method.CalculateIterationPoint', '        return new, old',
      '        self.min_delta = min(old.delta, self.min_delta)\n        return new, old')
+
+# ----------------------------------------------------------------------------- C12
+SOL = 'iOpt/solution.py'
+fire('c12-solution-default', 'C12', SOL, 'Solution.__init__',
+     'bestTrials: np.ndarray(shape=(1), dtype=Trial) = None,', 'bestTrials: np.ndarray(shape=(1), dtype=Trial) = [Trial([], [])],',
+     'R12.1', also=[(SOL, 'Solution.__init__', '        if bestTrials is None:\n            bestTrials = [Trial([], [])]\n', '')])
+fire('c12-item-default', 'C12', SD, 'SearchDataItem.__init__',
+     'functionValues: np.ndarray(shape=(1), dtype=FunctionValue) = None,',
+     'functionValues: np.ndarray(shape=(1), dtype=FunctionValue) = [FunctionValue()],', 'R12.1',
+     also=[(SD, 'SearchDataItem.__init__', '        if functionValues is None:\n            functionValues = [FunctionValue()]\n', '')])
+fire('c12-alltrials-default', 'C12', SD, 'SearchData.__init__', 'def __init__(self, problem: Problem, maxlen: int = None):',
+     'def __init__(self, problem: Problem, maxlen: int = None, trials=[]):', 'R12.1',
+     also=[(SD, 'SearchData.__init__', 'self._allTrials = []', 'self._allTrials = trials')])
+fire('c12-evolvent-nocopy', 'C12', EV, 'Evolvent.__init__', 'self.lowerBoundOfFloatVariables = np.copy(lowerBoundOfFloatVariables)',
+     'self.lowerBoundOfFloatVariables = lowerBoundOfFloatVariables', 'R12.3')
+fire('c12-class-level-list', 'C12', SD, 'SearchData.__init__', '        self._allTrials = []\n', '', None,
+     also=[(SD, 'SearchData', '    def __init__(self, problem: Problem, maxlen: int = None):',
+            '    _allTrials = []\n\n    def __init__(self, problem: Problem, maxlen: int = None):')])
+fire('c12-module-cache', 'C12', SV, 'Solver.__init__',
+     '        self.evolvent = Evolvent(problem.lowerBoundOfFloatVariables, problem.upperBoundOfFloatVariables,\n                                 problem.numberOfFloatVariables, parameters.evolventDensity)',
+     '        key = problem.numberOfFloatVariables\n        if key not in _EVOLVENTS:\n            _EVOLVENTS[key] = Evolvent(problem.lowerBoundOfFloatVariables, problem.upperBoundOfFloatVariables,\n                                       problem.numberOfFloatVariables, parameters.evolventDensity)\n        self.evolvent = _EVOLVENTS[key]',
+     None, also=[(SV, None, 'class Solver:', '_EVOLVENTS = {}\n\n\nclass Solver:')])
+fire('c12-global-counter', 'C12', M, 'Method.FinalizeIteration', '        self.iterationsCount += 1',
+     '        global _TOTAL\n        _TOTAL += 1\n        self.iterationsCount += 1', 'R12.2',
+     also=[(M, None, 'class Method:', '_TOTAL = 0\n\n\nclass Method:')])
+fire('c12-class-attr-write', 'C12', M, 'Method.FinalizeIteration', '        self.iterationsCount += 1',
+     '        self.iterationsCount += 1\n        Method.lastCount = self.iterationsCount', 'R12.2')
+fire('c12-params-written', 'C12', M, 'Method.CheckStopCondition', '            self.stop = True\n',
+     '            self.stop = True\n            self.parameters.itersLimit = self.iterationsCount\n', 'R12.3')
+fire('c12-problem-written', 'C12', P, 'Process.DoLocalRefinement', '        result.numberOfLocalTrials = nelder_mead.nfev',
+     '        result.numberOfLocalTrials = nelder_mead.nfev\n        self.task.problem.knownOptimum = result.bestTrials', 'R12.3')
+fire('c12-module-table-mutated', 'C12', 'iOpt/problems/grishagin_function/grishagin_function.py',
+     'GrishaginFunction.SetFunctionNumber',
+     '        for j in range(len(grishaginGen.matcon[i1])):\n            self.icnf[j] = int(grishaginGen.matcon[i1][j])\n',
+     '        self.icnf = grishaginGen.matcon[i1]\n', 'R12.2')
+fire('c12-shared-solution', 'C12', SD, 'SearchData.__init__', 'self.solution = Solution(problem)',
+     'self.solution = _SOLUTION', None, also=[(SD, None, 'class SearchDataItem(Trial):', '_SOLUTION = Solution(None)\n\n\nclass SearchDataItem(Trial):')])
+twin('c12-default-tuple', 'C12', 'iOpt/method/listener.py', 'StaticNDPaintListener.__init__', 'varsIndxs=[0, 1]', 'varsIndxs=(0, 1)')
+twin('c12-startpoint-none', 'C12', 'iOpt/solver_parametrs.py', 'SolverParameters.__init__', 'startPoint: Point = []',
+     'startPoint: Point = None')
+twin('c12-parameters-none', 'C12', SV, 'Solver.__init__', 'parameters: SolverParameters = SolverParameters()',
+     'parameters: SolverParameters = None', also=[(SV, 'Solver.__init__', '        self.problem = problem\n',
+                                                  '        if parameters is None:\n            parameters = SolverParameters()\n        self.problem = problem\n')])
